@@ -352,7 +352,7 @@ theorem lexAfterTok_failOnly (s : Instr) : FailOnly (lexAfterTok s) := by
     · exact FailOnly.fail
     · exact FailOnly.ok _
 
-theorem getReg_failOnly (s : Instr) (mi r : Nat) : FailOnly (getReg s mi r) := by
+theorem getReg_failOnly (opt : Nat) (s : Instr) (mi r : Nat) : FailOnly (getReg opt s mi r) := by
   unfold getReg getRegFinish
   dsimp only
   split
@@ -367,55 +367,55 @@ theorem mapOk_failOnly (g : R Instr) (f : Instr → Instr) (hg : FailOnly g) :
   | error e => intro e' he'; cases he'; exact hg e rfl
   | ok a => exact FailOnly.ok _
 
-theorem encodeTwoOpds_failOnly (s : Instr) (r m : Nat) : FailOnly (encodeTwoOpds s r m) := by
+theorem encodeTwoOpds_failOnly (opt : Nat) (s : Instr) (r m : Nat) : FailOnly (encodeTwoOpds opt s r m) := by
   unfold encodeTwoOpds
   dsimp only
-  exact mapOk_failOnly _ (fun s => setRex s (s.opd m) (s.opd r)) (getReg_failOnly _ _ _)
+  exact mapOk_failOnly _ (fun s => setRex s (s.opd m) (s.opd r)) (getReg_failOnly _ _ _ _)
 
-theorem encodeThreeOpds_failOnly (s : Instr) (r m v : Nat) : FailOnly (encodeThreeOpds s r m v) := by
+theorem encodeThreeOpds_failOnly (opt : Nat) (s : Instr) (r m v : Nat) : FailOnly (encodeThreeOpds opt s r m v) := by
   unfold encodeThreeOpds
   dsimp only
-  exact mapOk_failOnly _ (fun s => setRex s (s.opd m) (s.opd r)) (getReg_failOnly _ _ _)
+  exact mapOk_failOnly _ (fun s => setRex s (s.opd m) (s.opd r)) (getReg_failOnly _ _ _ _)
 
-theorem encodeSpecialOpd_failOnly (s : Instr) (m i : Nat) : FailOnly (encodeSpecialOpd s m i) := by
+theorem encodeSpecialOpd_failOnly (opt : Nat) (s : Instr) (m i : Nat) : FailOnly (encodeSpecialOpd opt s m i) := by
   unfold encodeSpecialOpd
   dsimp only
   split
-  · exact mapOk_failOnly _ (fun s => setRex s (s.opd m) noRegister) (getReg_failOnly _ _ _)
+  · exact mapOk_failOnly _ (fun s => setRex s (s.opd m) noRegister) (getReg_failOnly _ _ _ _)
   · split
-    · exact mapOk_failOnly _ (fun s => setRdOffsetO s m) (getReg_failOnly _ _ _)
+    · exact mapOk_failOnly _ (fun s => setRdOffsetO s m) (getReg_failOnly _ _ _ _)
     · split
       · exact FailOnly.ok _
       · exact FailOnly.ok _
 
-theorem dispatchEnc_failOnly (s : Instr) : FailOnly (dispatchEnc s) := by
+theorem dispatchEnc_failOnly (opt : Nat) (s : Instr) : FailOnly (dispatchEnc opt s) := by
   unfold dispatchEnc
   dsimp only
   split
-  · exact encodeTwoOpds_failOnly _ _ _
+  · exact encodeTwoOpds_failOnly _ _ _ _
   · split
-    · exact encodeTwoOpds_failOnly _ _ _
+    · exact encodeTwoOpds_failOnly _ _ _ _
     · split
-      · exact encodeThreeOpds_failOnly _ _ _ _
+      · exact encodeThreeOpds_failOnly _ _ _ _ _
       · split
-        · exact encodeThreeOpds_failOnly _ _ _ _
-        · exact encodeSpecialOpd_failOnly _ _ _
+        · exact encodeThreeOpds_failOnly _ _ _ _ _
+        · exact encodeSpecialOpd_failOnly _ _ _ _
 
-theorem encodeOperands_failOnly (s : Instr) : FailOnly (encodeOperands s) := by
+theorem encodeOperands_failOnly (opt : Nat) (s : Instr) : FailOnly (encodeOperands opt s) := by
   unfold encodeOperands
-  exact dispatchEnc_failOnly _
+  exact dispatchEnc_failOnly _ _
 
-theorem encodeIfRegs_failOnly (s : Instr) : FailOnly (encodeIfRegs s) := by
+theorem encodeIfRegs_failOnly (opt : Nat) (s : Instr) : FailOnly (encodeIfRegs opt s) := by
   unfold encodeIfRegs
   split
-  · exact encodeOperands_failOnly _
+  · exact encodeOperands_failOnly _ _
   · exact FailOnly.ok _
 
-theorem resolveRest_failOnly (s : Instr) : FailOnly (resolveRest s) := by
+theorem resolveRest_failOnly (opt : Nat) (s : Instr) : FailOnly (resolveRest opt s) := by
   unfold resolveRest
   split
   · exact FailOnly.fail
-  · exact mapOk_failOnly _ pushAdjust (encodeIfRegs_failOnly _)
+  · exact mapOk_failOnly _ pushAdjust (encodeIfRegs_failOnly _ _)
 
 theorem resolveBranch_failOnly (s : Instr) : FailOnly (resolveBranch s) := by
   intro e he
@@ -435,20 +435,20 @@ theorem resolveBranch_failOnly (s : Instr) : FailOnly (resolveBranch s) := by
       · cases he
   · cases he
 
-theorem resolveLine_failOnly (s : Instr) : FailOnly (resolveLine s) := by
+theorem resolveLine_failOnly (opt : Nat) (s : Instr) : FailOnly (resolveLine opt s) := by
   unfold resolveLine
   cases hb : resolveBranch s with
   | error e => intro e' he'; cases he'; exact resolveBranch_failOnly s e hb
-  | ok a => exact resolveRest_failOnly _
+  | ok a => exact resolveRest_failOnly _ _
 
 /-- **no modelled UB point is reachable from the tokenizer on**: for every option byte and every
     filtered line that starts with a non-blank character, lexing and resolving return a record or
     EXIT_FAILURE, never a NULL-token dereference -/
 theorem lex_resolve_failOnly (opt : Nat) (c : Ch) (rest : Str) (hc : isDelim [32, 9] c = false) :
-    FailOnly (lexLine opt (c :: rest)) ∧ ∀ s, FailOnly (resolveLine s) := by
-  refine ⟨?_, resolveLine_failOnly⟩
+    FailOnly (lexLine (c :: rest)) ∧ ∀ s, FailOnly (resolveLine opt s) := by
+  refine ⟨?_, resolveLine_failOnly opt⟩
   unfold lexLine
-  cases hi : instrTok (initInstr opt) (c :: rest) with
+  cases hi : instrTok initInstr (c :: rest) with
   | error e => intro e' he'; cases he'; exact instrTok_failOnly _ c rest hc e hi
   | ok s => exact lexAfterTok_failOnly s
 
@@ -540,15 +540,15 @@ theorem no_ub_line (opt : Nat) (text : Str) : FailOnly (assembleLine opt text).1
           have h1 : c ≠ 32 := by intro h; subst h; exact absurd hc65 (by decide)
           have h2 : c ≠ 9 := by intro h; subst h; exact absurd hc65 (by decide)
           simp [isDelim, h1, h2]
-        cases hl : lexLine opt (c :: rest) with
+        cases hl : lexLine (c :: rest) with
         | error e =>
           dsimp only
           intro e' he'; cases he'
           exact (lex_resolve_failOnly opt c rest hc).1 e hl
         | ok s =>
           dsimp only
-          cases hr : resolveLine s with
-          | error e => dsimp only; intro e' he'; cases he'; exact resolveLine_failOnly s e hr
+          cases hr : resolveLine opt s with
+          | error e => dsimp only; intro e' he'; cases he'; exact resolveLine_failOnly opt s e hr
           | ok s2 => exact FailOnly.ok _
 
 /-! ### whole calls -/
